@@ -504,6 +504,13 @@ func ctxDeriveRule(w *World, r *Report, e *Engine, m *evalModel, rule string, on
 		registered[f] = true
 	}
 	nd := 0
+	var reach map[*ssa.Function]bool
+	evalReach := func() map[*ssa.Function]bool {
+		if reach == nil {
+			reach = w.reachableFrom(append(evalEntries(w), w.registeredFuncs()...))
+		}
+		return reach
+	}
 	extSig := w.ByPath[modPath+"/types"].Types.Scope().Lookup("ExternalCall").Type().Underlying().(*types.Signature)
 	for _, fn := range w.Funcs {
 		if isTestFunc(w, fn) || !libraryPkg(fnPkgPath(fn)) || (only != nil && !only(fn)) {
@@ -564,6 +571,8 @@ func ctxDeriveRule(w *World, r *Report, e *Engine, m *evalModel, rule string, on
 					r.ok(rule, fn, construct, in.Pos(), "the function's own context or a context.With* child of it")
 				case fnPkgPath(fn) == modPath+"/reader":
 					r.add(rule, fn, construct, in.Pos(), "exempt", "Go constructors «…» build data at read time; no lisp code runs under this context")
+				case hasNoCtxParam(fn) && fn.Parent() == nil && !registered[fn] && evalReach()[fn]:
+					r.bad(rule, fn, construct, in.Pos(), "a function the evaluator or a builtin can reach has no context of its own and makes one up ("+describeVal(e, ctxArg, 0)+"): what it calls - a context-taking builtin, and the lisp functions that builtin applies - runs outside the caller's deadline and cancellation")
 				case hasNoCtxParam(fn) && fn.Parent() == nil && !registered[fn]:
 					r.add(rule, fn, construct, in.Pos(), "exempt", "library loader without a context of its own (runs the embedded header once at load time)")
 				case hasNoCtxParam(fn):
@@ -657,6 +666,25 @@ func tryShareRule(w *World, r *Report, e *Engine, rule string) {
 		}
 		fns = append(fns, b.Parent())
 	}
+	// helpers of the module that make the body's context
+	ctxMaker := func(f *ssa.Function) bool {
+		if f == nil || !inModule(f) || len(f.Blocks) == 0 || f.Signature.Results().Len() == 0 {
+			return false
+		}
+		return isContext(f.Signature.Results().At(0).Type())
+	}
+	for i := 0; i < len(fns); i++ {
+		for _, b := range fns[i].Blocks {
+			if fns[i] == m.EVAL && !m.regions["try"][b] {
+				continue
+			}
+			for _, in := range b.Instrs {
+				if c, ok := in.(*ssa.Call); ok && ctxMaker(c.Call.StaticCallee()) && len(fns) < 20 {
+					fns = append(fns, c.Call.StaticCallee())
+				}
+			}
+		}
+	}
 	for _, fn := range fns {
 		if seen[fn] {
 			continue
@@ -690,5 +718,87 @@ func tryShareRule(w *World, r *Report, e *Engine, rule string) {
 			}
 		}
 	}
+	// where the caller has a deadline the body's context has one too - the end of its share: a try nested in
+	// the body computes its own share from Deadline(), so a share enforced by a timer alone (WithCancel plus
+	// AfterFunc) lets the inner body outlive the outer one, and the inner handler starts on a dead context
+	nb := 0
+	for _, fn := range fns {
+		if fn == m.EVAL {
+			continue
+		}
+		for _, b := range fn.Blocks {
+			hasDeadline := false
+			for _, a := range knownConds(b) {
+				if ex, ok := a.v.(*ssa.Extract); ok && ex.Index == 1 && a.pol {
+					if dc, ok := ex.Tuple.(*ssa.Call); ok && dc.Call.IsInvoke() && dc.Call.Method.Name() == "Deadline" {
+						hasDeadline = true
+					}
+				}
+			}
+			for _, in := range b.Instrs {
+				c, ok := in.(*ssa.Call)
+				if !ok {
+					continue
+				}
+				sc := c.Call.StaticCallee()
+				if sc == nil || (sc != m.doFn && sc != m.EVAL && sc != m.evalAst) || len(c.Call.Args) == 0 {
+					continue
+				}
+				// the context.With* calls (or context-making helpers of the module) the argument comes from,
+				// through merges and through variables kept in cells
+				var makers []string
+				seenV := map[ssa.Value]bool{}
+				var trace func(v ssa.Value, depth int)
+				trace = func(v ssa.Value, depth int) {
+					if seenV[v] || depth > 6 {
+						return
+					}
+					seenV[v] = true
+					switch x := v.(type) {
+					case *ssa.Phi:
+						for _, ed := range x.Edges {
+							trace(ed, depth+1)
+						}
+					case *ssa.UnOp:
+						if cell := cellOf(x.X); cell != nil && x.Op == token.MUL {
+							for _, st := range e.storesTo(cell) {
+								trace(st.Val, depth+1)
+							}
+						}
+					case *ssa.Extract:
+						mk, ok := x.Tuple.(*ssa.Call)
+						if !ok || x.Index != 0 || mk.Call.StaticCallee() == nil {
+							return
+						}
+						if fnPkgPath(mk.Call.StaticCallee()) == "context" {
+							makers = append(makers, mk.Call.StaticCallee().Name())
+						} else if ctxMaker(mk.Call.StaticCallee()) {
+							// a helper of the module: the context it hands back is made with a deadline
+							found := "a helper that makes no deadline"
+							for _, hb := range mk.Call.StaticCallee().Blocks {
+								for _, hin := range hb.Instrs {
+									if hc, ok := hin.(*ssa.Call); ok && hc.Call.StaticCallee() != nil && fnPkgPath(hc.Call.StaticCallee()) == "context" && (hc.Call.StaticCallee().Name() == "WithTimeout" || hc.Call.StaticCallee().Name() == "WithDeadline") {
+										found = hc.Call.StaticCallee().Name()
+									}
+								}
+							}
+							makers = append(makers, found)
+						}
+					}
+				}
+				trace(c.Call.Args[0], 0)
+				if len(makers) == 0 && !hasDeadline {
+					continue // the path without a deadline: the caller's context as it is
+				}
+				nb++
+				okMk := len(makers) > 0
+				for _, mk := range makers {
+					okMk = okMk && (mk == "WithTimeout" || mk == "WithDeadline")
+				}
+				r.check(okMk, rule, fn, "context of the try body when the caller has a deadline", c.Pos(), fmt.Sprintf("made by context.%v: its Deadline() is the end of the share", makers), "the body runs under "+describeVal(e, c.Call.Args[0], 0)+", whose Deadline() is not the end of the body's share: a try form inside the body takes its share of the caller's whole remaining time, outlives the enclosing body, and its handler and finally start under a context that is already cancelled")
+			}
+		}
+	}
+	r.floor(rule, "evaluations of a try body under a deadline", nb, 1)
 	r.floor(rule, "time shares given to try bodies", n, 1)
 }
